@@ -143,9 +143,13 @@ def rule_outputs_pass(ctx, R, NR):
     if own:
         ctx.check(b.edge_guards((sbi, some), own[0]), "NFA-OUT", b, "own-on-some-arm", b.loc(*own),
                   "the own position is assigned only when the state has an output")
+        ctx.check(pbi not in (b.reach(some, avoid_blocks=[own[0]]) - {some} if some != own[0] else set()), "NFA-OUT", b, "own-on-every-some-path", b.loc(*own),
+                  "EVERY state with an own output gets its own position (no extra condition)")
     if inherit:
         ctx.check(b.edge_guards((sbi, none), inherit[0]), "NFA-OUT", b, "inherit-on-none-arm", b.loc(*inherit),
                   "output_pos is inherited only when the state has no own output")
+        ctx.check(pbi not in (b.reach(none, avoid_blocks=[inherit[0]]) - {none} if none != inherit[0] else set()), "NFA-OUT", b, "inherit-on-every-none-path",
+                  b.loc(*inherit), "EVERY state without own output inherits the fail state's output position (no extra condition)")
     # push of Output::new(value, length, parent)
     pushes = [(vw, bi, vw.op(tj["args"][1])) for vw, bi, c, tj in fv.calls(lambda c: c.key == VEC_PUSH)
               if m(F(Par(1), "outputs"), vw.op(tj["args"][0]))]
@@ -585,6 +589,9 @@ def rule_add(ctx, R, NR, rules=None):
             if dup_guard is not None:
                 ctx.check(bi not in b.reachable_from(0, avoid=[dup_guard]), "VALID-NONEMPTY", b, "len-after-duplicate-guard",
                           b.loc(bi, si), "len counts registered patterns: incremented only past the duplicate guard")
+            reg_exits = [e for e in ok_exits if not _is_lf_shadow_exit(b, root, e[0])]
+            ctx.check(bool(reg_exits) and all(b.dominates(bi, e[0]) for e in reg_exits), "VALID-NONEMPTY", b, "len-counts-every-registration", b.loc(bi, si),
+                      "every successful registration increments len (the empty-collection test relies on it)")
     # --- NFA-LF
     if want("NFA-LF") or want("STAT-SHADOW"):
         _nfa_lf(ctx, NR, b, fv, want)
